@@ -9,6 +9,7 @@
 //! under fresh hash seeds: no solver query expresses it).
 
 use crate::corpus::*;
+use crate::corpus2::{BorrowMut, BorrowRef, LeafRO, P};
 use crate::corpus3::*;
 use cglue::prelude::v1::*;
 use cglue::trait_group::{GetVtblBase, NoContext, Opaquable};
@@ -246,6 +247,56 @@ nd::harnesses! {
                 assert!(f(cont) == v as u8, "word 3 = Zeta (Getter<u8>)");
             }
         }
+    }
+
+    /// Provided methods - also `where Self: Sized` ones and ones taking an associated-type argument - have
+    /// their slot, in declaration order (7 exported methods, each one distinct).
+    #[kani::unwind(14)]
+    fn c04_vtbl_provided_methods_have_slots() {
+        let d = Dz { v: nd::any(), adds: 0, urgent: 0 };
+        let obj = trait_obj!(d as Defaults);
+        let vt: &DefaultsVtbl<_, _> = obj.get_vtbl_base();
+        let mut w = [0usize; 12];
+        words_of(vt, 7, &mut w);
+        assert!(w[0] == vt.add() as usize && w[1] == vt.add_twice() as usize && w[2] == vt.post() as usize);
+        assert!(w[3] == vt.post_urgent() as usize && w[4] == vt.coded() as usize && w[5] == vt.io_after() as usize);
+        assert!(w[6] == vt.state() as usize);
+        let mut i = 0;
+        while i < 7 {
+            let mut j = i + 1;
+            while j < 7 { assert!(w[i] != w[j]); j += 1; }
+            i += 1;
+        }
+    }
+
+    /// A cast to a NON-CONTIGUOUS subset of the optional traits (Alpha and Zeta, skipping Delta) has the
+    /// group's own words; the group's container stores the temporary-return storage of the mandatory trait
+    /// before that of the optional one even when the optional trait's name sorts first.
+    #[kani::unwind(14)]
+    fn c04_noncontiguous_cast_and_ret_tmp_order() {
+        let v: u32 = nd::any();
+        let sg = Sg(v);
+        let grp = group_obj!(&sg as AliasGrp);
+        let gw: [usize; 5] = unsafe { transmute_copy(&grp) };
+        let c = grp.cast_impl_alpha_zeta().unwrap();
+        assert!(size_of_val(&c) == 5 * W);
+        let cw: [usize; 5] = unsafe { transmute_copy(&c) };
+        let mut i = 0;
+        while i < 5 { assert!(cw[i] == gw[i], "cast variant keeps the group's layout"); i += 1; }
+        assert!(Getter::<u64>::fetch(&c) == (v as u64) ^ 0xFF00 && Getter::<u8>::fetch(&c) == v as u8);
+        // temporary storage order (group BGrp = BorrowRef mandatory, { BorrowMut } optional; "BorrowMut" < "BorrowRef")
+        nd::obs::reset();
+        let mut p = P::new(v);
+        let mut g = group_obj!(&mut p as crate::c06::BGrp);
+        let base = &g as *const _ as usize;
+        let a = { let r = g.borrow_leaf(); r as *const _ as *const u8 as usize - base };
+        let b = {
+            let m = as_mut!(g impl BorrowMut).unwrap();
+            let r = m.borrow_leaf_mut();
+            r as *mut _ as *mut u8 as usize - base
+        };
+        assert!(a < b, "mandatory trait's temporary storage precedes the optional trait's");
+        assert!(a >= 3 * W, "... and both follow the two vtable pointers and the instance");
     }
 
     /// Single-trait object with a visible context: vtable, instance (box), context - in that order.
